@@ -12,7 +12,7 @@ RULE = ("compressed_segmentation: for small valid chunks (both dtypes, 1-3 chann
         "of every header field (channel offsets 0/inside/past the end, bit widths 0..255, table offset "
         "2^24-1, value offsets past the end), random bytes, plus VALID variants written by an independent "
         "encoder (channels stored in reverse order, no table sharing, tables after the values); raw: "
-        "lengths around the expected size; JPEG: valid, truncated at sampled positions, corrupted bytes, "
+        "lengths around the expected size; JPEG: valid, truncated at sampled positions, corrupted bytes, frame-header fields (height/width/components/length) set to extreme values, "
         "wrong pixel count, wrong mode, non-JPEG data. Outcome classes (and arrays) are compared with the "
         "Lean models. Trivial = empty input.")
 ASSUMPTIONS = [
@@ -218,6 +218,32 @@ def run(ctx):
             b = bytearray(good)
             for _ in range(rng.choice([1, 2, 5])):
                 b[rng.randrange(len(b))] = rng.randrange(256)
+            variants.append((bytes(b), False))
+        # header-field mutations: the frame header (SOF) announces height, width and component count; extreme
+        # values reach PIL failure modes that are not OSError (e.g. DecompressionBombError above 2*MAX_IMAGE_PIXELS)
+        sof = next((i for i in range(len(good) - 9) if good[i] == 0xFF and good[i + 1] in (0xC0, 0xC1, 0xC2)), None)
+        if sof is not None:
+            # announced sizes between 8 and 179 megapixels are decoded in full by PIL before the wrapper can compare
+            # the pixel count (seconds, > 1 GB): slow but finite and ending in InvalidFormatError, so they are kept
+            # out of the time-limited stream (the property's "never hangs" is not a 5 s deadline)
+            while True:
+                rand_dims = (rng.randrange(65536), rng.randrange(65536))
+                if rand_dims[0] * rand_dims[1] <= 8_000_000 or rand_dims[0] * rand_dims[1] > 180_000_000:
+                    break
+            for hh, ww in [(0xFFFF, 0xFFFF), (0x8000, 0x8000), (0x4000, 0x4000), (0, None), (None, 0), (0xFFFF, None),
+                           (None, 0xFFFF), rand_dims]:
+                b = bytearray(good)
+                if hh is not None:
+                    b[sof + 5:sof + 7] = hh.to_bytes(2, "big")
+                if ww is not None:
+                    b[sof + 7:sof + 9] = ww.to_bytes(2, "big")
+                variants.append((bytes(b), False))
+            for nc in (0, 2, 4, 255):
+                b = bytearray(good)
+                b[sof + 9] = nc
+                variants.append((bytes(b), False))
+            b = bytearray(good)
+            b[sof + 2:sof + 4] = rng.choice([0, 2, 0xFFFF]).to_bytes(2, "big")   # segment length
             variants.append((bytes(b), False))
         other = JpegChunkEncoder("uint8", 4 - C).encode(  # wrong mode
             np.zeros((4 - C, size[2], size[1], size[0]), dtype="uint8"))
